@@ -122,6 +122,42 @@ def late_ladder(case, rungs):
     return {"T": T, "w_ref": w_ref, "log_ratio": es}
 
 
+MIX_CAP = 4.0  # measured D * nx_coarse <= 1.07 over the thorough lattice
+
+
+def mixed_refinement(case, tier):
+    """Few, very large time steps (dt/dx^2 up to 1e7): on ONE time grid the space grid is refined 4x at a time and
+    the coarser field is compared with the finer one (node j against the finer field on [x_j - 1.5h, x_j + 1.5h]).
+    First-order convergence in each variable separately bounds that difference by C h_coarse whatever the step size;
+    a scheme that treats long steps differently on fine grids (sub-cycling, capped mesh ratios, a switch of solver)
+    breaks it while every ladder with dt ~ h^2 above stays clean."""
+    nxs = [25, 100, 400, 1600] + ([6400] if tier == "thorough" else [])
+    nts = [3, 7, 25] + ([97] if tier == "thorough" else [])
+    worst, viol, states = 0.0, [], 0
+    for nt in nts:
+        t = sim.time_grid("uniform", nt, T_END)
+        U = {}
+        for nx in nxs:
+            res = sim.make_reservoir(case["cls"], nx, case["p_f"], case["p_i"], case["table"])
+            res.simulate(t)
+            m_f, m_i = sim.frac_values(res, case["cls"], case["p_f"], None, len(t))
+            U[nx] = (np.asarray(res.pseudopressure) - m_f[0]) / (m_i - m_f[0])
+            states += nt
+        for a, b in zip(nxs[:-1], nxs[1:]):
+            h = 1.0 / a
+            xa = (np.arange(a) + 1) * h
+            xb = np.concatenate([[0.0], (np.arange(b) + 1) / b])
+            d = max(float(interval_distance(U[a][i], xa - 1.5 * h, xa + 1.5 * h, xb,
+                                            np.concatenate([[0.0], U[b][i]])).max()) for i in range(1, nt))
+            worst = max(worst, d * a)
+            if d > MIX_CAP / a and len(viol) < 2:
+                viol.append(V("convergence/mixed-refinement", f"on a uniform {nt}-level grid to t={T_END} (dt/dx^2 up to "
+                              f"{(t[1] - t[0]) * b * b:.3g}) the nx={a} field differs from the nx={b} field by {d:.4g} of the "
+                              f"drawdown; first-order convergence in space allows {MIX_CAP}/nx = {MIX_CAP / a:.4g}",
+                              case=case, observed=d, tol=MIX_CAP / a))
+    return viol, worst, states
+
+
 def interval_distance(u, x_lo, x_hi, xr, wr):
     """Distance from u_j to the range of the (monotone in x) reference on [x_lo_j, x_hi_j]."""
     lo = np.interp(np.clip(x_lo, 0, 1), xr, wr)
@@ -129,8 +165,8 @@ def interval_distance(u, x_lo, x_hi, xr, wr):
     return np.maximum(0.0, np.maximum(lo - u, u - hi))
 
 
-def run_rung(case, nx, nt):
-    t = sim.time_grid("quadratic", nt, T_END)
+def run_rung(case, nx, nt, grid="quadratic"):
+    t = sim.time_grid(grid, nt, T_END)
     res = sim.make_reservoir(case["cls"], nx, case["p_f"], case["p_i"], case["table"])
     res.simulate(t)
     m_f, m_i = sim.frac_values(res, case["cls"], case["p_f"], None, len(t))
@@ -204,8 +240,10 @@ def evaluate(case):
         if es[-1] > LATE_CAP * 80 / rungs[-1][0]:
             viol.append(V("convergence/late-time/cap", msg + f": exceeds {LATE_CAP * 80 / rungs[-1][0]:.3g} at the last rung",
                           case=case, observed=late["log_ratio"]))
-    nsteps = sum(nt for _, nt in rungs) * (2 if late else 1)
-    return {"violations": viol, "ladder": L, "late": late, "states": nsteps, "transitions": nsteps - len(rungs),
+    mv, mix_worst, mix_states = mixed_refinement(case, case["tier"])
+    viol += mv
+    nsteps = sum(nt for _, nt in rungs) * (2 if late else 1) + mix_states
+    return {"violations": viol, "ladder": L, "late": late, "mix_worst": mix_worst, "states": nsteps, "transitions": nsteps - len(rungs),
             "outcome": "ratio<=%.1f" % (np.ceil(10 * max((L[k + 1]["E_rf"] / max(L[k]["E_rf"], 1e-300))
                                                          for k in range(len(L) - 1))) / 10)}
 
@@ -230,6 +268,7 @@ def run(ctx):
         "samples": samples_of([{**c, "ladder": r.get("ladder")} for c, r in zip(cs, res)]),
         "configurations": len(cs), "time_levels_simulated": sum(r.get("states", 0) for r in res),
         "worst_refinement_ratio": worst_ratio,
+        "worst_mixed_refinement_D_nx": max((r.get("mix_worst", 0) for r in res), default=None),
         "late_time_ladders": sum(1 for r in res if r.get("late")),
         "worst_late_log_ratio_last": max((abs(r["late"]["log_ratio"][-1]) for r in res if r.get("late")), default=None),
         "worst_Exnx_last": max((r["ladder"][-1]["E_rf"] * r["ladder"][-1]["nx"]) for r in res if r.get("ladder")),
@@ -239,6 +278,8 @@ def run(ctx):
         "validated against the series to 1e-5) are exact for the purpose of a 2e-4 floor",
         "node j is compared with the reference on [x_j - 1.5h, x_j + 1.5h], x_j=(j+1)/nx: any O(h) node convention",
         "asymptotic statement decided on a finite ladder: ratio <= 0.75 per rung and E_last <= 6/nx",
+        "mixed refinement: uniform grids of 3/7/25(/97) levels to t=3, nx = 25 -> 100 -> 400 -> 1600(-> 6400); the "
+        "coarser field is within 4/nx of the finer one (measured 1.07/nx)",
         "late-time ladder: the same rungs run until the exact outer-boundary value is ~1e-7 of the drawdown; "
         "|ln(simulated/exact)| must shrink by 0.75 at the last refinement, extrapolate to 0 and stay below 1 "
         "(measured 0.63 ideal / 0.21 single-phase at nx=80)",
